@@ -446,25 +446,280 @@ Definition wip_full (t : cue_track) : wip :=
         (rev (map (index_of (first_samples t)) (ct_indices t))) (lenN (ct_indices t)).
 Definition with_wip (S : pstate) (w : wip) : pstate := mkPs (ps_catalog S) (ps_tracks_rev S) (ps_ntracks S) (Some w).
 
+Definition header_lines (st : style) (t : cue_track) : list (list N) :=
+  let fl := if ct_pre t then [flags_line] else [] in
+  let il := match ct_isrc t with Some s => [isrc_line st s] | None => [] end in
+  if st_flags_first st then fl ++ il else il ++ fl.
 Definition body_lines (st : style) (t : cue_track) : list (list N) :=
-  (let fl := if ct_pre t then [flags_line] else [] in
-   let il := match ct_isrc t with Some s => [isrc_line st s] | None => [] end in
-   if st_flags_first st then fl ++ il else il ++ fl) ++ map (index_line st) (ct_indices t).
+  header_lines st t ++ map (index_line st) (ct_indices t).
 
 Lemma track_lines_eq st t : track_lines st t = track_line st t :: body_lines st t.
 Proof. reflexivity. Qed.
 
 Lemma run_header st t S : wf_track t -> ps_wip S = Some (wip_new (ct_num t)) ->
-  run S ((let fl := if ct_pre t then [flags_line] else [] in
-          let il := match ct_isrc t with Some s => [isrc_line st s] | None => [] end in
-          if st_flags_first st then fl ++ il else il ++ fl)) =
-  Ok (with_wip S (mkWip None (ct_num t) (isrc_of t) (ct_pre t) [] 0)).
+  run S (header_lines st t) = Ok (with_wip S (mkWip None (ct_num t) (isrc_of t) (ct_pre t) [] 0)).
 Proof.
-  intros (_ & _ & Wi) Hw. unfold isrc_of, with_wip. cbv zeta.
+  intros (_ & _ & Wi) Hw. unfold isrc_of, with_wip, header_lines. cbv zeta.
   destruct (ct_pre t) eqn:P, (ct_isrc t) as [s|] eqn:I, (st_flags_first st); cbn [app run];
     repeat first
       [ erewrite parse_flags_line by (cbn [ps_wip]; first [eassumption | reflexivity])
       | erewrite parse_isrc_line by (cbn [ps_wip]; first [eassumption | reflexivity])
       | progress cbn [bind ps_wip ps_catalog ps_tracks_rev ps_ntracks w_offset w_number w_isrc w_pre w_ix_rev w_ix_len wip_new] ];
     try (destruct S; cbn in *; subst; reflexivity).
+Qed.
+
+Lemma run_track_body st t S : wf_track t -> ps_wip S = Some (wip_new (ct_num t)) ->
+  (ps_ntracks S = 0 -> first_samples t = 0) ->
+  run S (body_lines st t) = Ok (with_wip S (wip_full t)).
+Proof.
+  intros W Hw Hz. unfold body_lines. rewrite run_app, (run_header st t S W Hw). cbn [bind].
+  destruct W as (Wix & Wshape & _). unfold wip_full, first_samples in *.
+  destruct (ct_indices t) as [|i0 r] eqn:E; [contradiction|]. destruct Wshape as (Hn0 & Hch & Hlen).
+  inversion Wix as [|? ? W0 Wr]; subst. cbn [map run].
+  rewrite (parse_index_first st _ (mkWip None (ct_num t) (isrc_of t) (ct_pre t) [] 0) i0); try reflexivity; try assumption;
+    [|apply wf_index_mm, W0|destruct Hn0 as [->|[-> _]]; auto].
+  cbn [bind with_wip ps_catalog ps_tracks_rev ps_ntracks w_number w_isrc w_pre].
+  cbn [lenN] in Hlen.
+  match goal with |- run (mkPs ?a ?b ?c (Some ?w')) _ = _ =>
+    rewrite (run_index_rest st r (mkPs a b c (Some w')) w' (ci_samples i0) (mkIx 0 (ci_num i0)) [] (ci_frames i0)) end;
+    cbn [ps_wip ps_catalog ps_tracks_rev ps_ntracks w_offset w_ix_rev w_ix_len w_number w_isrc w_pre ix_off ix_num];
+    try reflexivity; try assumption; try (rewrite samples_frames; lia); try lia.
+  - cbn [rev map lenN]. replace (index_of (ci_samples i0) i0) with (mkIx 0 (ci_num i0)) by (unfold index_of; rewrite N.sub_diag; reflexivity).
+    replace (1 + lenN r) with (N.succ (lenN r)) by lia. reflexivity.
+Qed.
+
+(* finishing the track in progress gives the expected track *)
+Lemma indexvec_of_wf off idxs : 
+  match idxs with
+  | [] => False
+  | i0 :: r => (ci_num i0 = 1 \/ (ci_num i0 = 0 /\ r <> [])) /\ index_chain (ci_frames i0) (ci_num i0) r
+  end ->
+  exists iv, indexvec_try_from (map (index_of off) idxs) = Ok iv /\
+             indexvec_list iv = map (index_of off) idxs.
+Proof.
+  destruct idxs as [|i0 r]; [contradiction|]. intros ([H1|[H0 Hr]] & Hch); cbn [map indexvec_try_from index_of ix_num].
+  - rewrite H1. change (1 =? 0) with false. change (1 =? 1) with true. cbv iota.
+    eexists. split; [reflexivity|]. reflexivity.
+  - rewrite H0. change (0 =? 0) with true. cbv iota. destruct r as [|i1 r']; [congruence|].
+    cbn [index_chain] in Hch. destruct Hch as (_ & Hn1 & _). cbn [map ix_num index_of]. rewrite Hn1, H0.
+    change (0 + 1 =? 1) with true. cbv iota. eexists. split; [reflexivity|]. reflexivity.
+Qed.
+
+Lemma finish_full t : wf_track t ->
+  exists trk, track_of t = Some trk /\ finish_track (wip_full t) = Ok trk /\
+              tr_off trk = first_samples t /\ tr_num trk = ct_num t /\
+              indexvec_list (tr_ix trk) = map (index_of (first_samples t)) (ct_indices t).
+Proof.
+  intros (Wix & Wshape & _). unfold track_of, finish_track, wip_full, first_samples. cbn [w_offset w_ix_rev w_number w_isrc w_pre].
+  rewrite rev_involutive.
+  destruct (ct_indices t) as [|i0 r] eqn:E; [contradiction|]. destruct Wshape as (Hn0 & Hch & _).
+  destruct (indexvec_of_wf (ci_samples i0) (i0 :: r) (conj Hn0 Hch)) as (iv & Hiv & Hl).
+  rewrite Hiv. cbn [bind]. eexists. split; [reflexivity|]. split; [reflexivity|]. cbn [tr_off tr_num tr_ix]. auto.
+Qed.
+
+(* ---- positions inside a track *)
+Definition lastf (pf : N) (l : list cue_index) : N := match rev l with i :: _ => ci_frames i | [] => pf end.
+
+Lemma lastf_cons pf i r : lastf pf (i :: r) = lastf (ci_frames i) r.
+Proof.
+  unfold lastf. cbn [rev]. destruct (rev r) as [|x q]; reflexivity.
+Qed.
+
+Lemma chain_le_last : forall l pf pn, index_chain pf pn l ->
+  pf <= lastf pf l /\ Forall (fun c => ci_frames c <= lastf pf l) l.
+Proof.
+  induction l as [|i r IH]; intros pf pn H.
+  - unfold lastf. cbn. split; [lia|constructor].
+  - cbn [index_chain] in H. destruct H as (H1 & _ & H3). rewrite lastf_cons.
+    destruct (IH _ _ H3) as [A B]. split; [lia|]. constructor; [exact A|exact B].
+Qed.
+
+Lemma track_frames_le_last t : wf_track t -> Forall (fun c => ci_frames c <= last_frames t) (ct_indices t).
+Proof.
+  intros (_ & W & _). unfold last_frames. destruct (ct_indices t) as [|i0 r]; [contradiction|].
+  destruct W as (_ & Hch & _). destruct (chain_le_last r (ci_frames i0) (ci_num i0) Hch) as [A B].
+  fold (lastf 0 (i0 :: r)). rewrite lastf_cons. constructor; assumption.
+Qed.
+
+Lemma indexvec_last_in iv : exists i, In i (indexvec_list iv) /\ indexvec_last iv = ix_off i.
+Proof.
+  unfold indexvec_last, indexvec_list. destruct (rev (iv_rest iv)) as [|x q] eqn:E.
+  - exists (iv_01 iv). split; [apply in_or_app; right; left; reflexivity|reflexivity].
+  - exists x. split; [|reflexivity]. apply in_or_app. right. right.
+    apply in_rev. rewrite E. left. reflexivity.
+Qed.
+
+Lemma finished_last_le t trk : wf_track t ->
+  indexvec_list (tr_ix trk) = map (index_of (first_samples t)) (ct_indices t) ->
+  indexvec_last (tr_ix trk) <= 588 * last_frames t /\
+  (forall total, Forall (fun i => ci_samples i < total) (ct_indices t) -> indexvec_last (tr_ix trk) < total).
+Proof.
+  intros W Hl. destruct (indexvec_last_in (tr_ix trk)) as (i & Hin & ->). rewrite Hl in Hin.
+  apply in_map_iff in Hin. destruct Hin as (c & <- & Hc). unfold index_of. cbn [ix_off].
+  pose proof (track_frames_le_last t W) as F. rewrite Forall_forall in F. specialize (F c Hc).
+  split; [rewrite samples_frames; lia|].
+  intros total B. rewrite Forall_forall in B. specialize (B c Hc). lia.
+Qed.
+
+(* ---- pushing a finished track *)
+Lemma push_track_ok S trk : ps_ntracks S < 99 ->
+  match ps_tracks_rev S with
+  | [] => tr_off trk = 0 /\ tr_num trk = 1
+  | p :: _ => tr_num p + 1 = tr_num trk /\ tr_num trk <= 255 /\ indexvec_last (tr_ix p) < tr_off trk
+  end ->
+  push_track true S trk = Ok (mkPs (ps_catalog S) (trk :: ps_tracks_rev S) (N.succ (ps_ntracks S)) (ps_wip S)).
+Proof.
+  intros Hn Hc. unfold push_track, try_push, track_max, CDDA_MAX_TRACKS.
+  destruct (N.ltb_spec (ps_ntracks S) 99) as [_|]; [|lia].
+  destruct (ps_tracks_rev S) as [|p q].
+  - destruct Hc as [H1 H2]. unfold track_valid_first. rewrite H1, H2. reflexivity.
+  - destruct Hc as (H1 & H2 & H3). unfold track_is_next.
+    destruct (N.ltb_spec (tr_num p + 1) 256) as [_|]; [|lia].
+    destruct (N.eqb_spec (tr_num p + 1) (tr_num trk)) as [_|]; [|lia].
+    destruct (N.ltb_spec (indexvec_last (tr_ix p)) (tr_off trk)) as [_|]; [|lia]. reflexivity.
+Qed.
+
+Definition finish_all (S : pstate) : res (option (list N) * list track) :=
+  match ps_wip S with
+  | None => Err EOther
+  | Some w => (t <- finish_track w ;; S' <- push_track true S t ;; Ok (ps_catalog S', rev (ps_tracks_rev S')))%res
+  end.
+
+(* ---- all tracks after the current one, then the end of the text *)
+Lemma run_tracks_finish st : forall ts S cur,
+  ps_wip S = Some (wip_full cur) -> wf_track cur ->
+  sheet_ok (ct_num cur + 1) (Some (last_frames cur)) ts ->
+  ps_ntracks S + 1 + lenN ts <= 99 -> ct_num cur + lenN ts <= 99 ->
+  match ps_tracks_rev S with
+  | [] => first_samples cur = 0 /\ ct_num cur = 1
+  | p :: _ => tr_num p + 1 = ct_num cur /\ indexvec_last (tr_ix p) < first_samples cur
+  end ->
+  exists trks, tracks_of (cur :: ts) = Some trks /\
+    (S' <- run S (flat_map (track_lines st) ts) ;; finish_all S')%res
+    = Ok (ps_catalog S, rev (ps_tracks_rev S) ++ trks).
+Proof.
+  induction ts as [|t r IH]; intros S cur Hw Wc Hsheet Hn Hnum Hcompat.
+  - destruct (finish_full cur Wc) as (trk & Htr & Hfin & Hoff & Hnm & Hl).
+    exists [trk]. cbn [tracks_of]. rewrite Htr. split; [reflexivity|].
+    cbn [flat_map run bind]. unfold finish_all. rewrite Hw, Hfin. cbn [bind].
+    cbn [lenN] in Hn, Hnum.
+    rewrite push_track_ok; [cbn [bind ps_catalog ps_tracks_rev rev]; reflexivity|lia|].
+    destruct (ps_tracks_rev S); rewrite Hoff, Hnm; [exact Hcompat|]. destruct Hcompat as [A B]. repeat split; try assumption; lia.
+  - cbn [sheet_ok] in Hsheet. destruct Hsheet as (Hnt & Wt & Hpos & Hrest).
+    destruct (finish_full cur Wc) as (trk & Htr & Hfin & Hoff & Hnm & Hl).
+    cbn [lenN] in Hn, Hnum.
+    cbn [flat_map]. rewrite run_app. rewrite track_lines_eq. cbn [run].
+    rewrite parse_track_line by lia. rewrite Hw, Hfin. cbn [bind].
+    rewrite push_track_ok; [|lia|].
+    2:{ destruct (ps_tracks_rev S); rewrite Hoff, Hnm; [exact Hcompat|]. destruct Hcompat as [A B]. repeat split; try assumption; lia. }
+    cbn [bind ps_catalog ps_tracks_rev ps_ntracks].
+    set (S1 := mkPs (ps_catalog S) (trk :: ps_tracks_rev S) (N.succ (ps_ntracks S)) (Some (wip_new (ct_num t)))).
+    rewrite (run_track_body st t S1 Wt eq_refl); [|cbn [S1 ps_ntracks]; lia].
+    cbn [bind].
+    assert (Hfirst : match ct_indices t with [] => False | i0 :: _ => last_frames cur < ci_frames i0 end).
+    { destruct (ct_indices t); exact Hpos. }
+    destruct (IH (with_wip S1 (wip_full t)) t) as (trks & Htrks & Hrun); try assumption.
+    + reflexivity.
+    + rewrite Hnt. exact Hrest.
+    + cbn [with_wip S1 ps_ntracks]. lia.
+    + lia.
+    + cbn [with_wip S1 ps_tracks_rev]. rewrite Hnm. split; [lia|].
+      destruct (finished_last_le cur trk Wc Hl) as [Hle _].
+      unfold first_samples. destruct (ct_indices t) as [|i0 q]; [contradiction|]. rewrite samples_frames. lia.
+    + exists (trk :: trks). split.
+      * cbn [tracks_of] in *. rewrite Htr. destruct (track_of t); [|discriminate].
+        destruct (tracks_of r); [|discriminate]. injection Htrks as <-. reflexivity.
+      * rewrite Hrun. cbn [with_wip S1 ps_catalog ps_tracks_rev rev]. rewrite <- app_assoc. reflexivity.
+Qed.
+
+(* ---- the whole sheet *)
+Lemma lines_eqb_eq : forall a b, lines_eqb a b = true -> a = b.
+Proof.
+  induction a as [|x a IH]; intros [|y b] H; cbn [lines_eqb] in H; try discriminate; [reflexivity|].
+  apply andb_prop in H. destruct H as [H1 H2]. apply list_eqb_eq in H1. apply IH in H2. congruence.
+Qed.
+
+Lemma sheet_ok_wf : forall ts n p, sheet_ok n p ts -> Forall wf_track ts.
+Proof.
+  induction ts as [|t r IH]; intros n p H; [constructor|]. cbn [sheet_ok] in H.
+  destruct H as (_ & W & _ & R). constructor; [exact W|eapply IH; exact R].
+Qed.
+
+Lemma tracks_of_last_lt total : forall ts trks, Forall wf_track ts -> tracks_of ts = Some trks ->
+  Forall (fun t => Forall (fun i => ci_samples i < total) (ct_indices t)) ts ->
+  Forall (fun trk => indexvec_last (tr_ix trk) < total) trks.
+Proof.
+  induction ts as [|t r IH]; intros trks W H B; cbn [tracks_of] in H.
+  - injection H as <-. constructor.
+  - inversion W as [|? ? Wt Wr]; inversion B as [|? ? Bt Br]; subst.
+    destruct (finish_full t Wt) as (trk & Htr & _ & _ & _ & Hl). rewrite Htr in H.
+    destruct (tracks_of r) as [trks'|] eqn:E; [|discriminate]. injection H as <-.
+    constructor; [|apply IH; auto].
+    destruct (finished_last_le t trk Wt Hl) as [_ Hlt]. apply Hlt, Bt.
+Qed.
+
+Lemma last_opt_in {A} (l : list A) x : last_opt l = Some x -> In x l.
+Proof.
+  unfold last_opt. destruct (rev l) as [|y q] eqn:E; [discriminate|]. intros H. injection H as <-.
+  apply in_rev. rewrite E. left. reflexivity.
+Qed.
+
+Theorem cue_import (p : profile) st c total text :
+  wf_cue c -> total mod 588 = 0 -> before_end c total ->
+  cue_text_matches st c text = true ->
+  exists b, block_of c total = Some b /\ cue_parse p total text = Ok b.
+Proof.
+  intros (Hne & Hlen & Hsheet & Hcat) Hmod Hend Hmatch.
+  unfold cue_text_matches in Hmatch. apply lines_eqb_eq in Hmatch.
+  unfold cue_parse, SAMPLES_PER_SECTOR. rewrite Hmod. change (0 =? 0) with true. cbv iota.
+  unfold parsed_cuesheet. rewrite parse_lines_run, run_filter, Hmatch. unfold cue_lines.
+  destruct (cu_tracks c) as [|t1 ts] eqn:ET; [congruence|]. clear Hne.
+  cbn [sheet_ok] in Hsheet. destruct Hsheet as (Hn1 & W1 & Hpos1 & Hrest).
+  cbn [lenN] in Hlen.
+  (* the state after the optional CATALOG line *)
+  remember (cu_catalog c) as cat eqn:Ecat.
+  assert (Hstart : exists S0, run (mkPs None [] 0 None)
+                     (match cat with Some d => [catalog_line st d] | None => [] end ++ flat_map (track_lines st) (t1 :: ts))
+                   = run S0 (flat_map (track_lines st) (t1 :: ts)) /\
+                   ps_catalog S0 = cat /\ ps_tracks_rev S0 = [] /\ ps_ntracks S0 = 0 /\ ps_wip S0 = None).
+  { destruct cat as [d|].
+    - destruct Hcat as [Ld Dd]. eexists. split.
+      + cbn [app run]. rewrite parse_catalog_line by (try assumption; reflexivity). cbn [bind]. reflexivity.
+      + cbn. auto.
+    - eexists. split; [reflexivity|]. cbn. auto. }
+  destruct Hstart as (S0 & -> & Hc0 & Ht0 & Hn0 & Hw0).
+  cbn [flat_map]. rewrite run_app, track_lines_eq. cbn [run].
+  rewrite parse_track_line by lia. rewrite Hw0. cbn [bind].
+  set (S1 := mkPs (ps_catalog S0) (ps_tracks_rev S0) (ps_ntracks S0) (Some (wip_new (ct_num t1)))).
+  assert (Hfs : first_samples t1 = 0).
+  { unfold first_samples. destruct (ct_indices t1) as [|i0 q]; [contradiction|]. rewrite samples_frames, Hpos1. reflexivity. }
+  rewrite (run_track_body st t1 S1 W1 eq_refl) by (intros _; exact Hfs). cbn [bind].
+  destruct (run_tracks_finish st ts (with_wip S1 (wip_full t1)) t1) as (trks & Htrks & Hrun); try assumption.
+  - reflexivity.
+  - rewrite Hn1. exact Hrest.
+  - cbn [with_wip S1 ps_ntracks]. rewrite Hn0. lia.
+  - rewrite Hn1. lia.
+  - cbn [with_wip S1 ps_tracks_rev]. rewrite Ht0. auto.
+  - match goal with |- context [bind (bind (run ?s ?l) ?f) ?g] => idtac end.
+    unfold finish_all in Hrun.
+    assert (Hps : (st0 <- run (with_wip S1 (wip_full t1)) (flat_map (track_lines st) ts) ;;
+                   match ps_wip st0 with
+                   | Some w => t <- finish_track w ;; st' <- push_track true st0 t ;; Ok (ps_catalog st', rev (ps_tracks_rev st'))
+                   | None => Err EOther
+                   end)%res = Ok (cat, trks)).
+    { rewrite <- Hc0. cbn [with_wip S1 ps_catalog ps_tracks_rev] in Hrun. rewrite Ht0 in Hrun. cbn [rev app] in Hrun.
+      rewrite <- Hrun. destruct (run _ _) as [sx| |]; cbn [bind]; try reflexivity; destruct (ps_wip sx); reflexivity. }
+    rewrite Hps. cbn [bind].
+    unfold block_of. rewrite ET, Htrks.
+    assert (Hlo : leadout_new (last_opt trks) total = Ok (mkLO total IsrcNone false false)).
+    { unfold leadout_new. destruct (last_opt trks) as [x|] eqn:EL; [|reflexivity].
+      apply last_opt_in in EL.
+      pose proof (tracks_of_last_lt total (t1 :: ts) trks) as F.
+      assert (Wall : Forall wf_track (t1 :: ts)) by (constructor; [exact W1|eapply sheet_ok_wf; exact Hrest]).
+      unfold before_end in Hend. rewrite ET in Hend. specialize (F Wall Htrks Hend).
+      rewrite Forall_forall in F. specialize (F x EL).
+      destruct (N.leb_spec total (indexvec_last (tr_ix x))); [lia|reflexivity]. }
+    rewrite Hlo. cbn [bind]. eexists. split; [reflexivity|].
+    do 2 f_equal. destruct cat as [[|d0 dr]|]; try assumption; try reflexivity.
+    destruct Hcat as [Ld _]. cbn in Ld. lia.
 Qed.
